@@ -247,6 +247,7 @@ def constant_strain(ctx, lib, kelvin_want):
 def run(ctx):
     from . import e2e_rules as _e2e
 
+    ctx.attempt(_e2e.beam_rule, ctx, 'R1.E3')
     ctx.attempt(_e2e.patch_test_rule, ctx, 'R1.E1')
     ctx.attempt(_e2e.thermal_patch_rule, ctx, 'R1.E2')
     from . import c10 as _c10
